@@ -419,6 +419,19 @@ def c15_case(rnd, cs, job, acc):
         acc.count("tie-stratum")
     else:
         ties = False
+    if not m["alap"] and rnd.random() < 0.15:
+        # task-level ALAP below a container with an end date, in an ASAP project (terminal detection, anchors and the
+        # backward propagation look tasks up by id: seeded change C15-e keyed them by the LOCAL id)
+        conts = [t for t in m["tasks"] if t["container"] and "end" not in t]
+        for c in rnd.sample(conts, min(len(conts), 2)):
+            kids = [t for t in m["tasks"] if t["path"][:-1] == c["path"] and not t["container"] and "effort_min" in t and "start" not in t]
+            if kids:
+                c["end"] = m["start"] + timedelta(days=rnd.randint(6, 13), minutes=rnd.randrange(0, 24 * 60, m["res"]))
+                k = rnd.choice(kids)
+                k["task_alap"] = True
+                for d in k.get("deps", []):
+                    d.pop("onstart", None)
+                acc.count("task-level-alap-below-dated-container")
     text1 = gen.render(m)
     p1, _, _ = run(text1)
     d1, end1 = dates(p1), p1["end"]
